@@ -471,7 +471,7 @@ flops_t *trsv_ops;      /* flops distribution on n */
 #define SLUV_PRUNE_BEGIN    19   /* a=jj                           (yield) */
 #define SLUV_PRUNE_END      20   /* a=jj                           (yield) */
 #define SLUV_PRESETMAP      21   /* a=n ctx=Glu */
-#define SLUV_PARINIT_END    22   /* a=n ctx=pxgstrf_shared */
+#define SLUV_PARINIT_END    22   /* a=n b=etree ctx=pxgstrf_shared */
 #define SLUV_PARFINAL       23   /* ctx=pxgstrf_shared */
 #define SLUV_UPDATE_SRC     24   /* a=jcol(panel) b=krep c=fsupc   panel update from a DONE supernode */
 #define SLUV_UPDATE_BUSY    25   /* a=jcol(panel) b=krep c=fsupc   panel update from a waited-for supernode */
